@@ -243,6 +243,9 @@ type Node struct {
 	apiSeq       int
 
 	// fault injection for callbacks
+	LateForks    [][2]*Block        // (ledger block, block decided later for the same height) pairs that differ
+	InitHeight   uint32             // ledger height and tip reported to the library at the latest Start/Reset
+	InitTip      H
 	NilBlocks    int                // number of upcoming NewBlockFromContext / NewPreBlockFromContext calls that return nil (fuzzing only)
 	FailPreBlock int                // number of upcoming ProcessPreBlock calls to fail
 	FailBlock    int                // number of upcoming ProcessBlock calls to fail (anti-MEV heights only)
@@ -604,6 +607,13 @@ func (n *Node) NewInstance() error {
 				n.Accepted = append(n.Accepted, AcceptRec{Height: bb.Idx, View: n.D.ViewNumber, Hash: bb.Hash(), Clock: c.Clock, Seq: c.seq, Inst: n.Restarts})
 				n.appendBlock(bb, false)
 				n.PendingReset = true
+			} else if ex := n.BlockAt(bb.Idx); ex != nil {
+				// the ledger got this height from its peers already and Reset is still pending: the application
+				// ignores the late decision - unless it names another block, which is a fork
+				c.Stats["decisions-for-heights-already-synced"]++
+				if ex.Hash() != bb.Hash() {
+					n.LateForks = append(n.LateForks, [2]*Block{ex, bb})
+				}
 			}
 			return nil
 		}),
@@ -811,6 +821,7 @@ func (n *Node) Start() {
 		}
 	}
 	n.PendingReset = false
+	n.InitHeight, n.InitTip = n.Height(), n.TipHash()
 	n.call("Start", nil, func() { n.D.Start(n.TipTs()) })
 }
 
@@ -818,6 +829,7 @@ func (n *Node) Start() {
 func (n *Node) Reset() {
 	n.PendingReset = false
 	n.ResetAt = 0
+	n.InitHeight, n.InitTip = n.Height(), n.TipHash()
 	n.call("Reset", nil, func() { n.D.Reset(n.TipTs()) })
 }
 
